@@ -177,6 +177,10 @@ def t_kwargs(E):
     E.prove("C32.StaticGenerativeFunction.partial_apply.prepends_stored_args",
             E.eq(E.I.call(pa.fields["source"], [b], {}), E.I.call(src, [a, b], {})))
     E.prove("C32.StaticGenerativeFunction.partial_args", E.eq(E.I.getattr(pa, "partial_args"), (a,)))
+    # partially applied arguments AND keyword arguments together
+    pkw = E.method(pa, "handle_kwargs")
+    E.prove("C32.StaticGenerativeFunction.handle_kwargs.keeps_partially_applied_arguments",
+            E.eq(E.I.call(pkw.fields["source"], [(b,), kw], {}), E.I.call(src, [a, b], dict(kw))))
     pa2 = E.method(pa, "partial_apply", b)
     E.prove("C32.StaticGenerativeFunction.partial_apply.composes",
             E.eq(E.I.call(pa2.fields["source"], [], {}), E.I.call(src, [a, b], {})))
